@@ -26,7 +26,24 @@ type Parser struct {
 	currentToken *Token // Current token being processed
 	peekToken    *Token // Next token (lookahead)
 	resolver     ReferenceResolver
+	depth        int // arrays and dictionaries currently open
 }
+
+// MaxNestingDepth bounds how deeply arrays and dictionaries may be nested in
+// one object. The parser is recursive: without a bound a file of repeated '['
+// costs memory per level and finally exhausts the goroutine stack, which
+// aborts the process.
+const MaxNestingDepth = 1000
+
+func (p *Parser) enter() error {
+	if p.depth >= MaxNestingDepth {
+		return fmt.Errorf("arrays and dictionaries nested deeper than %d levels", MaxNestingDepth)
+	}
+	p.depth++
+	return nil
+}
+
+func (p *Parser) leave() { p.depth-- }
 
 // SetReferenceResolver sets the reference resolver for the parser.
 // This is needed to resolve indirect stream lengths.
@@ -161,9 +178,17 @@ func (p *Parser) ParseObject() (Object, error) {
 		return Name(val), nil
 
 	case TokenArrayStart:
+		if err := p.enter(); err != nil {
+			return nil, err
+		}
+		defer p.leave()
 		return p.parseArray()
 
 	case TokenDictStart:
+		if err := p.enter(); err != nil {
+			return nil, err
+		}
+		defer p.leave()
 		return p.parseDict()
 
 	default:
